@@ -1,6 +1,8 @@
 """C10 — applying an exchange rate converts money and prices correctly."""
 from __future__ import annotations
 
+from fractions import Fraction
+
 from ..contracts import *  # noqa: F401,F403
 from ..report import Result
 from .c09 import exact_rate
@@ -78,6 +80,81 @@ def run(prog, tier) -> Result:
     cr.run("R10.2", ER("__mul__"), "rate * price (compound unit)", setup_price, judge_price(True), min_paths=2)
     cr.run("R10.2", ER("__rtruediv__"), "price / rate (compound unit)", setup_price, judge_price(False), min_paths=2)
 
+    # ---- compound units with *nested* definitions, evaluated on interpreted Term objects:
+    #      USD/t := 0.001 * (USD/kg), USD/kg := Term(USD, kg^-1); the rate's currencies are plain base units
+    from ..engine_a import run_body
+    from ..report import Violation
+
+    def deep_body(mult):
+        def body(I, c):
+            st = c.st
+            I.models.term_objects = True
+            c.new_type("M", **FLAVORS["money"])
+            c.new_type("T", **FLAVORS["ref"])
+            c.new_type("P", has_ref=False, has_quantum=False, money=False)
+            for a_, b_ in (("M", "T"), ("M", "P"), ("T", "P")):
+                st.distinct_types(a_, b_)
+            st.type_dims["P"] = {"M": (1, 0), "T": (-1, 0)}
+            usd, eur = c.unit("usd", "M", kind="base"), c.unit("eur", "M", kind="base")
+            st.distinct_units("usd", "eur")
+            kg = UnitV(st.ref_unit("T"))
+            st.U(kg.uid).kind = "ref"
+            for u in (usd, eur, kg):
+                st.unit_defs[u.uid] = "base"
+            TERM = TypeV("Term", prog.cls("Term"))
+
+            def term(items):
+                tv = TupleV([TupleV([e, Num(RF.const(x), "int")]) for e, x in items])
+                return I.models.call(TERM, [tv], {}, None)
+            upk = UnitV(st.new_unit("P", uid="usd_per_kg", mu=mu_of(st, usd) / mu_of(st, kg), kind="defined"))
+            st.unit_defs["usd_per_kg"] = term([(usd, 1), (kg, -1)])
+            upt = UnitV(st.new_unit("P", uid="usd_per_t", mu=RF.const(Fraction(1, 1000)) * mu_of(st, upk), kind="defined"))
+            st.unit_defs["usd_per_t"] = term([(Num(RF.const(Fraction(1, 1000)), "dec"), 1), (upk, 1)])
+            price = c.qty("other", upt)
+            # price * rate needs unit currency == price currency; price / rate needs term currency == price currency
+            rate = c.rate("self", usd, eur) if mult else c.rate("self", eur, usd)
+            st.deep = (rate, price, usd, eur)
+            fn = prog.method("ExchangeRate", "__mul__" if mult else "__rtruediv__")
+            return I.call_function(fn, [rate, price], {})
+        return body
+
+    def deep_judge(mult):
+        def judge(o):
+            st = o.state
+            rate, price, usd, eur = st.deep
+            lookup_failed = any(t.startswith("unit_from_term@") and t.endswith("=KeyError") for t in o.trace)
+            if o.kind == "raise":
+                if o.exc.name == "QuantityError" and lookup_failed:
+                    return None
+                return (exc_sig(o) + (" without a failed unit lookup" if not lookup_failed else ""),
+                        "the price's currency matches the rate: the only legitimate rejection is an undeclared "
+                        "target unit (failed lookup of the resulting unit term)")
+            r = exact_rate(st, rate)
+            want = st.norm(price.amount.rf) * mu_of(st, price.unit) * (r if mult else r.inv()) * \
+                (mu_of(st, eur) / mu_of(st, usd))
+            return judge_qty(o, tid=price.tid, value=want, max_depth=1)
+        return judge
+    for mult in (True, False):
+        site = f"ExchangeRate.{'__mul__' if mult else '__rtruediv__'}"
+        case = f"price in a unit defined through another price unit {'*' if mult else '/'} rate"
+        outs = run_body(prog, deep_body(mult), max_depth=16)
+        res.paths += len(outs)
+        res.functions.add(site)
+        fails = []
+        if len(outs) < 2:
+            fails.append(Violation("R10.2", site, case, "no feasible path", f"{len(outs)} paths"))
+        for o in outs:
+            r = flags_sig(o, ("float-arith", "int-div", "none-operand", "none-attribute", "bad-unpack")) or deep_judge(mult)(o)
+            if r is not None:
+                fails.append(Violation("R10.2", site, case, r[0], f"{r[1]}; outcome: {o.brief()}", list(o.trace)))
+        res.obligations += 1
+        res.evaluations += max(1, len(outs))
+        res.rules["R10.2"] = res.rules.get("R10.2", 0) + 1
+        res.nontrivial_keys.add(("R10.2", site, case))
+        if not fails:
+            res.discharged += 1
+        res.violations.extend(fails)
+
     for lbl, mk in (("number", lambda c: c.num("k", "dec")), ("str", lambda c: StrV(None, "t")), ("None", lambda c: NONE)):
         def setup_o(c, mk=mk):
             r = setup_money(c)[0][0]
@@ -96,6 +173,6 @@ def run(prog, tier) -> Result:
                ("quantity operator intercepts an exchange rate", o.brief()), flag_kinds=())
 
     res.require("R10.1", 3)
-    res.require("R10.2", 2)
+    res.require("R10.2", 4)
     res.require("R10.3", 8)
     return res
